@@ -323,9 +323,9 @@ pub fn def() -> CheckDef {
         assumptions: vec!["WireFormat::len is crate-private and not an observer"],
         sections: vec![
             Box::new(ReplayOnly { name: "fuzz-bytes", check: check_raw }),
-            Box::new(PropSection { name: "observers", rule: "reference encodings with hostile bytes", strategy: super::c11::strategy_pub, cases: (200_000, 2_000_000), check }),
+            Box::new(PropSection { name: "observers", rule: "reference encodings with hostile bytes", strategy: super::c11::strategy_pub, cases: (140_000, 2_000_000), check }),
             Box::new(PropSection { name: "txt-text", rule: "UTF-8 text cut into strings at arbitrary byte positions", strategy: txt_strategy, cases: (100_000, 1_000_000), check: check_txt }),
-            Box::new(PropSection { name: "mutated", rule: "accepted mutated encodings", strategy: super::c01::mutated_strategy, cases: (200_000, 2_000_000), check: check_mutated }),
+            Box::new(PropSection { name: "mutated", rule: "accepted mutated encodings", strategy: super::c01::mutated_strategy, cases: (140_000, 2_000_000), check: check_mutated }),
         ],
     }
 }
